@@ -111,6 +111,7 @@ structure St where
   deqd : Nat → Bool          -- dequeued by request_stop
   owner : Nat → Nat          -- activity that constructs / executes the callback
   ctorBy : Nat → Nat         -- activity that runs the constructor
+  dtorBy : Nat → Nat         -- activity that runs the destructor
   runs : Nat → Nat           -- number of times the callback body was entered
   running : Nat → Bool
   reqAtReg : Nat → Bool      -- stop had been requested when the constructor was invoked
@@ -122,7 +123,7 @@ def init (n K : Nat) (ident : Nat → Nat) (fixCas fixCtor : Bool) (srcs : Nat) 
     lock := none, req := false, srcs := srcs, list := [], sig := 0, pc := fun _ => .idle,
     fin := fun _ => false, remPtr := fun _ => none, remFlag := fun _ => false,
     life := fun _ => .new, kept := fun _ => false, pushed := fun _ => false, ranInl := fun _ => false,
-    deqd := fun _ => false, owner := fun _ => 0, ctorBy := fun _ => 0, runs := fun _ => 0, running := fun _ => false,
+    deqd := fun _ => false, owner := fun _ => 0, ctorBy := fun _ => 0, dtorBy := fun _ => 0, runs := fun _ => 0, running := fun _ => false,
     reqAtReg := fun _ => false, rsTrue := 0, winner := none }
 
 /-- Where a lock loop goes after observing the word `(lk, rq, src)` with the function's own
@@ -156,7 +157,7 @@ def step (s : St) : Ev → Option St
         else none
       | .unreg c =>
         if s.life c = .live then
-          some { s with life := upd s.life c .dying,
+          some { s with life := upd s.life c .dying, dtorBy := upd s.dtorBy c a,
                         pc := upd s.pc a (if s.fixCtor ∧ s.kept c = false then .retn (.unreg c) false
                                           else .ld (.unreg c)) }
         else none
@@ -196,13 +197,17 @@ def step (s : St) : Ev → Option St
   | .acq a =>
     if a < s.n ∧ s.lock = none then
       match s.pc a with
-      | .cas k sreq =>
+      | .cas .rs sreq =>
         if sreq = s.req then
-          match k with
-          | .rs => some { s with lock := some a, req := true, sig := s.ident a, winner := some a,
-                                 pc := upd s.pc a (.locked .rs) }
-          | k => some { s with lock := some a, pc := upd s.pc a (.locked k) }
+          some { s with lock := some a, req := true, sig := s.ident a, winner := some a,
+                        pc := upd s.pc a (.locked .rs) }
         else none
+      | .cas (.reg c) sreq =>
+        if sreq = s.req then some { s with lock := some a, pc := upd s.pc a (.locked (.reg c)) } else none
+      | .cas (.unreg c) sreq =>
+        if sreq = s.req then some { s with lock := some a, pc := upd s.pc a (.locked (.unreg c)) } else none
+      | .cas .relock sreq =>
+        if sreq = s.req then some { s with lock := some a, pc := upd s.pc a (.locked .relock) } else none
       | _ => none
     else none
   | .deq a c more =>
